@@ -409,8 +409,8 @@ class LibMap:
             # new last slot (T__ctor is a unit or a callee); forwarded scalars / pointers are passed by value, class-type
             # arguments by address
             ect = em.tm.seq_insts.get(tag, "")
-            if not ect.startswith("struct ") or ect.startswith("struct vf_") or ect.endswith("*"):
-                return None
+        if name == "emplace_back" and len(args) != 1 and ect.startswith("struct ") and \
+                not ect.startswith("struct vf_") and not ect.endswith("*"):
             etag = ect[len("struct "):]
             pcs, avs = [], []
             for a in args:
